@@ -406,7 +406,8 @@ CLAIM = {
             "big-endian + sign-bit flip, false<true byte, null marker order, DESC inversion on the valid path), decided on MIR for all "
             "instances. Right level: ORDER BY correctness over all inputs reduces, for the encoding layer, to these finitely many "
             "constants; value-level sorting behaviour cannot be decided statically. Plus the index-space discipline of SortLayout in the "
-            "sort/merge code (key positions vs heap-layout positions are never mixed). Plus the tie-resolution exit of the column-by-column block sort: the early exit tests every tie flag that involves a kept row (whole vector, or a prefix not shortened by subtraction).",
+            "sort/merge code (key positions vs heap-layout positions are never mixed). Plus the tie-resolution exit of the column-by-column block sort: the early exit tests every tie flag that involves a kept row (whole vector, or a prefix not shortened by subtraction)."
+            " Plus KEYCANON: the float sort-key encoders canonicalise NaN and the sign of zero before taking the bits.",
     "note": "trusted: rustc MIR; assumes the key comparison is bytewise memcmp over these encodings (read in sort code); does not decide merge/limit logic",
     "technique": "static analysis: MIR constant/sibling-agreement rules + must-pass-through (rustc_private driver)",
 }
